@@ -563,4 +563,170 @@ example : (frun [.track 9 2 41, .applied 9 3, .applied 9 2]).resolved = [(41, 9,
 example : (frun [.track 9 2 41, .applied 9 3]).resolved = [] := by decide
 
 
+
+
+/-! ### the async apply pipeline bounded by MaxApplyingTasks and its synchronous fallback
+    (processReadyAsyncNormal: enqueue → on ErrSlotBusy processReadySynchronously; runApplyTask) -/
+
+/-- indices a+1 … b -/
+def span (a b : Nat) : List Nat := List.range' (a + 1) (b - a)
+
+structure AP where
+  applied : List Nat := []            -- every index handed to the state machine, in the order it was handed over
+  queue : List (Nat × Nat) := []      -- async apply tasks (a,b], FIFO, incl. the one running
+  deliv : Nat := 0                    -- raft has delivered (and Advanced past) committed entries up to here
+  waiting : Option Nat := none        -- the raft worker is inside processReadySynchronously with (deliv, b] in hand
+deriving Repr
+
+inductive AStep where
+  | deliver (b : Nat)   -- a Ready whose committed entries are (deliv, b]: enqueue, or ErrSlotBusy → synchronous path
+  | syncApply           -- the synchronous path applies what it holds (after waitApplyIdle, if that is there)
+  | work                -- the apply worker runs the task at the head of the queue
+deriving Repr
+
+/-- `waitIdle` = processReadySynchronously starts with waitApplyIdle (the source as it is);
+    `max` = RaftOptions.MaxApplyingTasks -/
+def astep (waitIdle : Bool) (max : Nat) (s : AP) : AStep → Option AP
+  | .deliver b =>
+    if s.waiting.isSome ∨ b ≤ s.deliv then none                          -- the raft worker is busy / nothing new
+    else if s.queue.length < max then
+      some { s with queue := s.queue ++ [(s.deliv, b)], deliv := b }     -- enqueue, Advance
+    else some { s with waiting := some b }                               -- ErrSlotBusy → processReadySynchronously
+  | .syncApply =>
+    match s.waiting with
+    | none => none
+    | some b =>
+      if waitIdle ∧ s.queue ≠ [] then none                               -- still blocked in waitApplyIdle
+      else some { s with applied := s.applied ++ span s.deliv b, deliv := b, waiting := none }
+  | .work =>
+    match s.queue with
+    | [] => none
+    | (a, b) :: q => some { s with applied := s.applied ++ span a b, queue := q }
+
+def arun (waitIdle : Bool) (max : Nat) (ss : List AStep) : AP :=
+  ss.foldl (fun s st => (astep waitIdle max s st).getD s) {}
+
+def pendingOf (q : List (Nat × Nat)) : List Nat := q.flatMap (fun p => span p.1 p.2)
+
+theorem span_append (a b c : Nat) (h1 : a ≤ b) (h2 : b ≤ c) : span a b ++ span b c = span a c := by
+  unfold span
+  have e1 : c - a = (b - a) + (c - b) := by omega
+  have e2 : b + 1 = (a + 1) + (b - a) := by omega
+  rw [e1, e2, List.range'_append_1]
+
+def AInv (s : AP) : Prop :=
+  s.applied ++ pendingOf s.queue = span 0 s.deliv ∧ (∀ b, s.waiting = some b → s.deliv < b)
+
+theorem ainv_step (max : Nat) (s s' : AP) (st : AStep) (h : AInv s) (hs : astep true max s st = some s') : AInv s' := by
+  obtain ⟨h1, h2⟩ := h
+  cases st with
+  | deliver b =>
+    simp only [astep] at hs
+    split at hs
+    · cases hs
+    · rename_i hb
+      have hw : s.waiting = none := by
+        cases hw : s.waiting with
+        | none => rfl
+        | some x => simp [hw] at hb
+      have hlt : s.deliv < b := by
+        have : ¬ b ≤ s.deliv := fun h' => hb (Or.inr h')
+        omega
+      split at hs
+      · cases hs
+        refine ⟨?_, ?_⟩
+        · simp only [pendingOf, List.flatMap_append, List.flatMap_cons, List.flatMap_nil, List.append_nil]
+          rw [← List.append_assoc]
+          have h' : s.applied ++ List.flatMap (fun p => span p.1 p.2) s.queue = span 0 s.deliv := h1
+          rw [h', span_append 0 s.deliv b (by omega) (by omega)]
+        · intro x hx; simp only at hx; rw [hw] at hx; cases hx
+      · cases hs
+        refine ⟨h1, ?_⟩
+        intro x hx; simp only [Option.some.injEq] at hx; subst hx; exact hlt
+  | syncApply =>
+    simp only [astep] at hs
+    cases hw : s.waiting with
+    | none => rw [hw] at hs; cases hs
+    | some b =>
+      rw [hw] at hs
+      simp only at hs
+      split at hs
+      · cases hs
+      · rename_i hq
+        cases hs
+        have hnil : s.queue = [] := by
+          cases hqq : s.queue with
+          | nil => rfl
+          | cons x xs => simp [hqq] at hq
+        have hlt := h2 b hw
+        refine ⟨?_, fun x hx => by cases hx⟩
+        simp only [hnil, pendingOf, List.flatMap_nil, List.append_nil] at h1 ⊢
+        rw [h1, span_append 0 s.deliv b (by omega) (by omega)]
+  | work =>
+    simp only [astep] at hs
+    cases hq : s.queue with
+    | nil => rw [hq] at hs; cases hs
+    | cons x xs =>
+      obtain ⟨a, b⟩ := x
+      rw [hq] at hs
+      cases hs
+      refine ⟨?_, h2⟩
+      simp only [hq, pendingOf, List.flatMap_cons] at h1 ⊢
+      rw [List.append_assoc]; exact h1
+
+theorem ainv_run (max : Nat) (ss : List AStep) : AInv (arun true max ss) := by
+  unfold arun
+  suffices ∀ s, AInv s → AInv (ss.foldl (fun s st => (astep true max s st).getD s) s) from
+    this {} ⟨by simp [pendingOf, span], fun b hb => by cases hb⟩
+  induction ss with
+  | nil => intro s h; exact h
+  | cons st ss ih =>
+    intro s h
+    simp only [List.foldl_cons]
+    cases hs : astep true max s st with
+    | none => simpa using ih s h
+    | some s' => simpa using ih s' (ainv_step max s s' st h hs)
+
+theorem prefix_range' (l r : List Nat) (st n : Nat) (h : l ++ r = List.range' st n) : l = List.range' st l.length := by
+  induction l generalizing st n with
+  | nil => rfl
+  | cons x xs ih =>
+    cases n with
+    | zero => simp at h
+    | succ n =>
+      rw [List.range'_succ] at h
+      simp only [List.cons_append, List.cons.injEq] at h
+      obtain ⟨hx, hr⟩ := h
+      simp only [List.length_cons, List.range'_succ]
+      rw [hx]; congr 1
+      exact ih (st + 1) n hr
+
+theorem prefix_range (l r : List Nat) (n : Nat) (h : l ++ r = List.range' 1 n) : l = List.range' 1 l.length :=
+  prefix_range' l r 1 n h
+
+/-- **sync_fallback_in_order**: for every MaxApplyingTasks and every interleaving of Readys
+    (async enqueue, or the synchronous fallback when the pipeline is full) and apply-worker
+    steps, with waitApplyIdle at the head of the synchronous path the indices reach the state
+    machine in index order, each once: the applied sequence is always 1, 2, …, k, and together
+    with the queued tasks it is exactly what raft delivered. -/
+theorem c12_sync_fallback_in_order (max : Nat) (ss : List AStep) :
+    (arun true max ss).applied = List.range' 1 (arun true max ss).applied.length ∧
+    (arun true max ss).applied ++ pendingOf (arun true max ss).queue = span 0 (arun true max ss).deliv ∧
+    Gen.C12.processReadySynchronously.head? = some "waitApplyIdle" := by
+  have h := ainv_run max ss
+  refine ⟨?_, h.1, by decide⟩
+  have h1 := h.1
+  unfold span at h1
+  simpa using prefix_range _ _ _ h1
+
+example : (arun true 1 [.deliver 3, .deliver 4, .syncApply, .work, .syncApply]).applied = [1, 2, 3, 4] := by decide
+
+/-- the decided counter-schedule: WITHOUT waitApplyIdle at the head of the fallback (the
+    first round-1 mutant), MaxApplyingTasks = 1, a Ready (0,3] is queued, the next Ready (3,4]
+    is refused by the full pipeline and applied synchronously while (0,3] is still queued:
+    index 4 reaches the state machine before 1, 2, 3. -/
+theorem c12_sync_fallback_without_wait_reorders :
+    (arun false 1 [.deliver 3, .deliver 4, .syncApply, .work]).applied = [4, 1, 2, 3] := by decide
+
+
 end WK.C12
